@@ -40,13 +40,34 @@ def ensure_engine():
         sys.exit(2)
 
 
+_GOROOT = None
+
+
+def goroot():
+    global _GOROOT
+    if _GOROOT is None:
+        _GOROOT = subprocess.run(["go", "env", "GOROOT"], env=ENV, stdout=subprocess.PIPE, text=True).stdout.strip()
+    return _GOROOT
+
+
+# package key -> (harness directory, directory the harness is overlaid into, package pattern, package name)
+def pkginfo(pkg):
+    if pkg == ".":
+        return ("stun", REPO, ".", "stun")
+    if pkg == "hmac":
+        return ("hmac", os.path.join(REPO, "internal", "hmac"), "./internal/hmac", "hmac")
+    if pkg == "crc32":
+        return ("crc32", os.path.join(goroot(), "src", "hash", "crc32"), "hash/crc32", "crc32")
+    raise SystemExit("unknown package key " + pkg)
+
+
 def harness_files(pkg):
-    d = os.path.join(VERIF, "harness", "stun" if pkg == "." else "hmac")
+    d = os.path.join(VERIF, "harness", pkginfo(pkg)[0])
     return sorted(glob.glob(os.path.join(d, "zz_vx_*.go")))
 
 
 def repo_dir(pkg):
-    return REPO if pkg == "." else os.path.join(REPO, "internal", "hmac")
+    return pkginfo(pkg)[1]
 
 
 def overlay_arg(pkg):
@@ -70,8 +91,8 @@ def known_findings():
 def run_engine(pkg, tags, harnesses, tier, seed, known_open, extra, outdir):
     """one gosymx process; returns list of result dicts"""
     tag = tags or "release"
-    out = os.path.join(outdir, "res-%s-%s-%s.json" % ("stun" if pkg == "." else "hmac", tag, hashlib.md5(",".join(harnesses).encode()).hexdigest()[:8]))
-    cmd = [BIN, "-repo", REPO, "-pkg", pkg if pkg == "." else "./internal/hmac", "-overlay", overlay_arg(pkg),
+    out = os.path.join(outdir, "res-%s-%s-%s.json" % (pkginfo(pkg)[0], tag, hashlib.md5(",".join(harnesses).encode()).hexdigest()[:8]))
+    cmd = [BIN, "-repo", REPO, "-pkg", pkginfo(pkg)[2], "-overlay", overlay_arg(pkg),
            "-harness", ",".join(harnesses), "-out", out, "-replays", os.path.join(outdir, "cex"),
            "-seed", str(seed), "-tier", tier, "-known", ",".join(known_open)]
     if tags:
@@ -94,7 +115,7 @@ def native_replay(path, tier="quick", timeout=300):
     wd = os.path.join(WORK, "replay-%d-%s" % (os.getpid(), hashlib.md5(path.encode()).hexdigest()[:8]))
     os.makedirs(wd, exist_ok=True)
     rd = repo_dir(pkg)
-    pkgname = "stun" if pkg == "." else "hmac"
+    pkgname = pkginfo(pkg)[3]
     reg = os.path.join(wd, "zz_vx_registry.go")
     with open(reg, "w") as f:
         f.write("package %s\n\nvar vxHarnesses = map[string]func(){\n" % pkgname)
@@ -196,6 +217,13 @@ def main():
             inconclusive.append("%s[%s]: %s" % (h, r.get("tags") or "release", r["unsupported"][:600]))
             continue
         is_self = h.endswith("_selftest")
+        if is_self and r.get("pkg") == "crc32":
+            # lemma package (standard library code): solver-only twin, no native replay
+            if r.get("violations"):
+                selftests_ok += 1
+            else:
+                inconclusive.append("%s: reachability twin did not come back violated" % h)
+            continue
         is_kf = h in kf_harness
         if r.get("inconclusive") and not is_self:
             inconclusive.append("%s[%s]: inconclusive: %s" % (h, r.get("tags") or "release", "; ".join(r.get("notes") or [])[:600] or "solver unknown/error"))
